@@ -91,13 +91,23 @@ Theorem C10_refuted_maps_not_normalised :
 Proof. exact (map_not_normalised Fz i2fz 1 map_example_differs). Qed.
 Print Assumptions C10_refuted_maps_not_normalised.
 
+(** F10c (pinned tree): through the context-supporting HTTP transform an entity that carries a nested entity is stored again by every
+    re-run - the observation the pinned flag predicts violates the spec ("running it again produces no new changes") *)
+Example C10_refuted_nested_http :
+  let c := {| c_n := 6; c_batch := 100; c_par := 1; c_kind := KIdentity; c_full := false; c_wrap := false;
+              o_outcome := 0%N; o_seen := []; o_sink := []; o_token := 0; o_rerun := -1;
+              o_copy := Some (true, 6, 6, 2, 2); c_nested := 2; o_json := None |} in
+  agree PCeilClip true c = true /\ agree PCeilClip false c = false /\ spec_ok c = false.
+Proof. vm_compute. repeat split. Qed.
+Print Assumptions C10_refuted_nested_http.
+
 (** tie to the correspondence check: agreement with the repaired model on a
     case implies the executable spec on the implementation's observations *)
 Theorem C10_agree_implies_spec : forall c,
   0 <= c_n c -> 1 <= c_batch c -> 1 <= c_par c -> c_kind c <> KPushIn ->
   (o_copy c <> None -> c_kind c = KIdentity) ->     (* copy-mode cases use content-preserving transforms only *)
   (forall v v' o o', o_json c = Some (v, v', o, o') -> jsimgb v v' = true) ->   (* normalisation cases pair a value with a JS image of it *)
-  agree PCeilClip c = true -> spec_ok c = true.
+  agree PCeilClip false c = true -> spec_ok c = true.
 Proof. exact agree_fixed_spec. Qed.
 Print Assumptions C10_agree_implies_spec.
 
